@@ -69,7 +69,9 @@ fn show_tok(t: &Tok) -> String {
 }
 
 /// The ideal timer the property talks about: when ticks fall due, whether one is outstanding.
-/// Written from the property statement; shares nothing with routecore or the Lean model.
+/// Written from the property statement; shares no code with routecore or the Lean model.  It is a MONITOR: for an await it is
+/// fed the implementation's observation (tick or timeout, and the clock afterwards) to know whether the due tick is still
+/// outstanding; it never reads the Timer's state.
 #[derive(Clone, Debug)]
 struct Ideal {
     i: u64, now: u64,
@@ -177,7 +179,7 @@ impl Prop for C20 {
         let alpha = alphabet(I * 1000);
         // exhaustive to a depth: (1) the 8 settled letters {s, r, x, a(i/4), a(i), a(2i), w(9i/8), w(i/8)};
         // (2) those plus the 3 unsettled letters {A r, A x, A s}(i), one level less deep, keeping the
-        // sequences that contain an unsettled letter. exec cuts a sequence before its first precondition violation.
+        // sequences that contain an unsettled letter. The run goes on beyond the precondition (`pre` marks where it first breaks).
         let (d8, d11) = if tier == Tier::Thorough { (7, 6) } else { (6, 5) };
         let mut enumerate = |letters: usize, depth: usize, need_unsettled: bool, v: &mut Vec<String>| {
             let mut idx = vec![0usize; depth];
@@ -329,20 +331,36 @@ impl Prop for C20 {
     fn oracle(&self, l: &str, reply: &str) -> Result<(), String> {
         if reply == "bad-op" { return Ok(()); }
         if reply == "panic" { return Err("timer panics".into()); }
-        if reply.contains("-BAD@") { return Err(format!("Timer::is_running disagrees with the start / stop calls made: {}", reply.rsplit(' ').next().unwrap_or(""))); }
         let w: Vec<&str> = l.split(' ').collect();
         let i: u64 = w[1].parse::<u64>().map_err(|_| "i")? * 1000;
         let ops = parse_ops(w[2]).ok_or("ops")?;
-        let mut toks = reply.split(' ').filter(|t| *t != "-");
+        // `pre` (emitted once, by run_seq's own bookkeeping, before the first operation that breaks the precondition) is
+        // compared with the model's marker by the correspondence run; here only its presence is cross-checked at the end
+        let marked = reply.split(' ').any(|t| t == "pre");
+        let mut toks = reply.split(' ').filter(|t| *t != "-" && *t != "pre");
         let mut id = Ideal::new(i);
+        // The precondition ("each tick is awaited before the next one falls due") broke since the timer was last started or
+        // stopped: which ticks are outstanding is no longer determined by the property, "no tick earlier than one interval
+        // after the last start / reset" is not judged.  A `start` or a `stop` discards everything outstanding (the ideal
+        // timer's state is fully determined again): judging resumes there.  "No tick while stopped" and is_running() do
+        // not depend on the await discipline and are judged on every history.
+        let mut suspended = false;
+        let mut ever_suspended = false;
         for (k, op) in ops.iter().enumerate() {
-            if id.violates(op) { return Ok(()); } // precondition ends here: nothing more is claimed
+            if !suspended && id.violates(op) { suspended = true; ever_suspended = true; }
             let mut obs = None;
             let mut now_after = id.now;
-            if let Op::Probe = op { toks.next().ok_or("reply too short")?; }
+            if let Op::Probe = op {
+                let t = toks.next().ok_or("reply too short")?;
+                // Timer::is_running() = a start was called and no stop since (first digit of the probe)
+                let r = t.as_bytes().get(1).copied();
+                if t.as_bytes().first() == Some(&b'q') && r != Some(if id.running { b'1' } else { b'0' }) {
+                    return Err(format!("op {} (q): Timer::is_running() answers {} but the calls made so far leave the timer {}", k,
+                        r.map(|c| c as char).unwrap_or('?'), if id.running { "started" } else { "stopped" }));
+                }
+            }
             if let Op::Wait(_) = op {
                 let t = toks.next().ok_or("reply too short")?;
-                if t == "pre" { return Err(format!("implementation run stopped at op {} where the precondition still holds", k)); }
                 let (what, at) = t.split_once('@').ok_or("token")?;
                 now_after = at.parse().map_err(|_| "time")?;
                 if let Some(v) = what.strip_prefix('t') {
@@ -351,16 +369,24 @@ impl Prop for C20 {
                     if !id.running {
                         return Err(format!("op {} ({}): tick observed at {} ms although the timer was stopped and not started again", k, show_op(op), now_after));
                     }
-                    let armed = id.last_start.unwrap_or(0).max(id.last_reset.unwrap_or(0));
-                    if now_after < armed + i {
-                        return Err(format!("op {} ({}): tick observed at {} ms, earlier than one interval ({} ms) after the last start/reset at {} ms", k, show_op(op), now_after, i, armed));
-                    }
-                    if v < armed + i {
-                        return Err(format!("op {} ({}): observed tick carries the instant {} ms, generated before the last start/reset at {} ms + interval", k, show_op(op), v, armed));
+                    if !suspended {
+                        let armed = id.last_start.unwrap_or(0).max(id.last_reset.unwrap_or(0));
+                        if now_after < armed + i {
+                            return Err(format!("op {} ({}): tick observed at {} ms, earlier than one interval ({} ms) after the last start/reset at {} ms", k, show_op(op), now_after, i, armed));
+                        }
+                        if v < armed + i {
+                            return Err(format!("op {} ({}): observed tick carries the instant {} ms, generated before the last start/reset at {} ms + interval", k, show_op(op), v, armed));
+                        }
                     }
                 } else { obs = Some(false); }
             } else if let Op::Adv(d) | Op::AdvNs(d) = op { now_after = id.now + d; }
             id.apply(op, obs, now_after);
+            // a start / stop (alone or inside a burst of calls) re-arms the judging
+            let rearms = match op { Op::Start | Op::Stop => true, Op::Burst(a, n) => a[..*n as usize].iter().any(|c| *c == b's' || *c == b'x'), _ => false };
+            if rearms { suspended = false; }
+        }
+        if marked != ever_suspended {
+            return Err(format!("the harness's own marker `pre` ({}) and the oracle's reading of the precondition ({}) differ", marked, ever_suspended));
         }
         Ok(())
     }
